@@ -105,7 +105,8 @@ class Contract:
     def __init__(self, key, params, returns=None, requires=(), ensures=(), raises=None, loops=None,
                  modifies=(), inline=(), witness=(), ghost=(), trusted=False, pure=False, note="",
                  raise_ensures=None, decreases=None, body=None, unroll=None, assume_valid=True,
-                 replay=None, props=(), lemmas=(), locals=None, hints=(), domains=None, gen=None, ghost_scope=None, no_runtime=False, bounded_only=False, depth=None, reveal=(), frame_only=False, param_values=None, modifies_ghost=(), unfold_only=None, becomes=None, lemmas_for=None, crash_invariant=None, only_lemmas=False):
+                 replay=None, props=(), lemmas=(), locals=None, hints=(), domains=None, gen=None, ghost_scope=None, no_runtime=False, bounded_only=False, depth=None, reveal=(), frame_only=False, param_values=None, modifies_ghost=(), unfold_only=None, becomes=None, lemmas_for=None, crash_invariant=None, only_lemmas=False, budget=1):
+        self.budget = budget             # factor on the solver time budget of this function's obligations (heavy quantified contexts)
         self.only_lemmas = only_lemmas   # do not add the `auto` lemmas of every loaded module to this function's obligations
         self.crash_invariant = list(crash_invariant or [])   # must hold after every persistent (ghost disk) effect: the crash points
         self.lemmas_for = dict(lemmas_for or {})   # obligation-kind prefix -> extra lemmas given only to those obligations
